@@ -276,13 +276,14 @@ type world struct {
 	staticTouched  bool   // src/rules op since the failed build
 	counts         map[string]int
 	builds, cleans int
+	valid          map[string]bool // rules built by an earlier successful build and untouched since
 	known          map[string]bool // every output path a rule or an op of this history named
 	aged           bool            // the cache records were aged past the expiry in this history
 }
 
 func newWorld(base string) *world {
 	return &world{base: base, saved: map[string]*savedFile{}, maxMtime: map[string]int64{}, counts: map[string]int{},
-		known: map[string]bool{}}
+		known: map[string]bool{}, valid: map[string]bool{}}
 }
 
 func must(err error) {
@@ -318,6 +319,7 @@ func (w *world) reset() {
 	writeWorkspaceFile(w.root)
 	w.rules = nil
 	w.known = map[string]bool{}
+	w.valid = map[string]bool{}
 	w.aged = false
 	w.saved = map[string]*savedFile{}
 	w.maxMtime = map[string]int64{}
@@ -436,6 +438,7 @@ func (w *world) apply(line string) string {
 	case ws[0] == "src" && len(ws) >= 3:
 		w.lastKind = "src-" + ws[1]
 		w.staticTouched = true
+		w.valid = map[string]bool{}
 		p := w.src(ws[2])
 		switch ws[1] {
 		case "set":
@@ -480,6 +483,7 @@ func (w *world) apply(line string) string {
 	case ws[0] == "rules":
 		w.lastKind = "rules"
 		w.staticTouched = true
+		w.valid = map[string]bool{}
 		var rs []*ruleDef
 		for _, x := range ws[1:] {
 			r, ok := parseRule(x)
@@ -500,6 +504,7 @@ func (w *world) apply(line string) string {
 		w.lastKind = "out-" + ws[1]
 		p := w.out(ws[2])
 		w.known[ws[2]] = true
+		delete(w.valid, strings.TrimSuffix(ws[2], ".fileset"))
 		switch ws[1] {
 		case "link":
 			if len(ws) != 4 {
@@ -588,6 +593,7 @@ func (w *world) apply(line string) string {
 	case ws[0] == "cache" && len(ws) == 2 && ws[1] == "age":
 		w.lastKind = "cache-age"
 		w.aged = true
+		w.valid = map[string]bool{}
 		ageCache(w.root)
 		return "ok"
 	case ws[0] == "build" && len(ws) >= 2:
@@ -986,6 +992,30 @@ func (w *world) buildOp(always bool, targets []string, line string) string {
 			w.fail("failed-rule-cached", fmt.Sprintf(
 				"the execution of %s failed; the same build again gave %s, executed %v (cache entries %d -> %d): the failed rule must be executed again and nothing of it may be cached",
 				fr, c2, e2, obs.cache, n2))
+		}
+	}
+
+	// ---- oracle: exactly the dependants are rebuilt (model-free half): a rule that an earlier
+	// successful build built, with no source / BUILD / cache step since and its own outputs left
+	// alone, has an unchanged digest and a valid record: an ordinary build must not execute it
+	if !always {
+		w.counts["oracle:valid-rules-checked"]++
+		for _, e := range obs.exec {
+			if w.valid[e] {
+				w.fail("valid-rule-re-executed", fmt.Sprintf(
+					"%s was built before, nothing it depends on and none of its outputs changed since, yet this build executed it (executed: %v)",
+					e, obs.exec))
+				break
+			}
+		}
+	}
+	if obs.class == "ok" {
+		for n := range reachable(w.rules, targets) {
+			w.valid[n] = true
+		}
+	} else {
+		for _, e := range obs.exec {
+			delete(w.valid, e)
 		}
 	}
 
